@@ -131,18 +131,18 @@ Proof.
   induction c as [dt shape data| |w o c IHc|w s e c IHc|c size zl IHc|w ix c IHc|w ix c IHc|m vw c IHc
                  |m vw lsb n c IHc|c IHc|w t ix cs IHcs|cs ks n IHcs|arr rn c IHc] using content_ind';
     intros p groups c' HV H.
-  - exact (sax_leaf_fits asc p _ groups c' eq_refl H).
-  - exact (sax_leaf_fits asc p _ groups c' eq_refl H).
-  - eapply sax_list_fits; [reflexivity|exact HV| |exact H]. intros g' r Hv Hr. exact (IHc None g' r Hv Hr).
-  - eapply sax_list_fits; [reflexivity|exact HV| |exact H]. intros g' r Hv Hr. exact (IHc None g' r Hv Hr).
-  - eapply sax_list_fits; [reflexivity|exact HV| |exact H]. intros g' r Hv Hr. exact (IHc None g' r Hv Hr).
+  - eapply sax_leaf_fits; [|exact H]; reflexivity.
+  - eapply sax_leaf_fits; [|exact H]; reflexivity.
+  - eapply sax_list_fits; [| | |exact H]; [reflexivity|exact HV|]. intros g' r Hv Hr. exact (IHc None g' r Hv Hr).
+  - eapply sax_list_fits; [| | |exact H]; [reflexivity|exact HV|]. intros g' r Hv Hr. exact (IHc None g' r Hv Hr).
+  - eapply sax_list_fits; [| | |exact H]; [reflexivity|exact HV|]. intros g' r Hv Hr. exact (IHc None g' r Hv Hr).
   - rewrite sax_Indexed_eq in H. apply bind_Ok in H as (gs & Hgs & H). inversion HV; subst.
     match goal with Hv : Valid None c |- _ => destruct (IHc None gs c' Hv H) as [A B] end.
     split; [exact A|]. rewrite B, (gatherGs_zlens _ _ _ Hgs). reflexivity.
-  - exact (sax_leaf_fits asc p _ groups c' eq_refl H).
-  - exact (sax_leaf_fits asc p _ groups c' eq_refl H).
-  - exact (sax_leaf_fits asc p _ groups c' eq_refl H).
-  - exact (sax_leaf_fits asc p _ groups c' eq_refl H).
+  - eapply sax_leaf_fits; [|exact H]; reflexivity.
+  - eapply sax_leaf_fits; [|exact H]; reflexivity.
+  - eapply sax_leaf_fits; [|exact H]; reflexivity.
+  - eapply sax_leaf_fits; [|exact H]; reflexivity.
   - discriminate.
   - discriminate.
   - cbn [sax] in H. inversion HV; subst. eapply IHc; eassumption.
@@ -190,17 +190,19 @@ Proof.
     + destruct e; try discriminate. eapply sort_axes_preserves_valid; eassumption.
 Qed.
 
-(* nested lists + option leaves below a record and a union: axis 1 of three (non-innermost), both orders *)
+(* sort refuses records and unions ([sortable]); nested lists below option-type and indexed nodes, option leaves, an
+   n-d leaf: axis 1 of three (non-innermost) and axis 0, both orders, and the wrapper on every axis *)
 Example sort_axes_preserves_valid_ex :
   let x := ListOffset I64 [0; 2; 3; 3]
              (ListA I64 [0; 3; 5] [3; 5; 6]
                 (IndexedOption I64 [2; -1; 0; 1; 3; -1] (Numpy DInt64 [4] [DZ 5; DZ 1; DZ 9; DZ 4]))) in
   let y := Regular (Regular (Numpy DFloat64 [2; 3] [DZ 1; DNaN; DZ 3; DZ 0; DZ 7; DZ 2]) 1 2) 2 1 in
-  let c := Record [x; Indexed I64 [0; 0; 0] y] (Some [[120]; [121]]) 3 in
-  let u := Union I64 [0; 1; 0] [0; 0; 2] [x; y] in
+  let c := ByteMasked [1; 0; 1] true x in
+  let d := Indexed I64 [2; 0; 0; 1] x in
+  let r := Record [x; Indexed I64 [0; 0; 0] y] (Some [[120]; [121]]) 3 in
   let ok := fun r : res content => match r with Ok c' => valid_b c' | Err _ => false end in
-  valid_b c = true /\ valid_b u = true /\
+  valid_b c = true /\ valid_b d = true /\ valid_b r = true /\ sort_axes_model true 1 r = Err EValue /\
   forallb ok [sort_axes_model true 1 x; sort_axes_model false (-2) x; sort_axes_model true 0 x; sort_axes_model true 1 y;
-              sort_axes_model true 1 c; sort_axes_model false 1 u; sort_model_all true false 1 c;
-              sort_model_all false false 2 c; sort_model_all true true 2 x] = true.
+              sort_axes_model true 1 c; sort_axes_model false 1 d; sort_axes_model false 0 d; sort_model_all true false 1 c;
+              sort_model_all false false 2 c; sort_model_all true false 0 d; sort_model_all true true 2 c] = true.
 Proof. vm_compute. repeat split. Qed.
